@@ -21,6 +21,8 @@ type replayJob struct {
 	params  map[string]int
 	outcome string
 	detail  string
+	wantObs []string
+	gotObs  []string
 }
 
 func (j *replayJob) confirms() bool {
@@ -113,6 +115,10 @@ func (r *replayer) run(jobs []*replayJob) error {
 			j.outcome = f[2]
 			if len(f) == 4 {
 				j.detail = f[3]
+				if k := strings.Index(j.detail, " ||OBS|| "); k >= 0 {
+					json.Unmarshal([]byte(j.detail[k+9:]), &j.gotObs)
+					j.detail = j.detail[:k]
+				}
 			}
 			n++
 		}
